@@ -1,11 +1,175 @@
-(* C04 - spmc work-stealing run queue.  Property theorems only. *)
-From Coq Require Import List ZArith.
+(* C04 - the work-stealing run queue (may_queue::spmc) hands every task to exactly one taker.
+   Property theorems only: each is closed by `exact` of a lemma proved in Queue/Spmc*.v and followed by
+   Print Assumptions.  All statements hold for every block size B >= 1, any number of stealers, any
+   schedule, and for BOTH allocator disciplines: `reuse = true` lets the allocator issue a freed block
+   address again, so ABA on the packed head word is inside the statements, not assumed away. *)
+From Coq Require Import List Arith Bool ZArith.
 Import ListNotations.
-Require Import MayV.Queue.SpmcModel MayV.Queue.SpmcAccept.
+Require Import MayV.Queue.SpmcModel MayV.Queue.SpmcInv MayV.Queue.SpmcFacts MayV.Queue.SpmcThm MayV.Queue.SpmcOrder MayV.Queue.SpmcAccept.
 
-(* Tie: every state along a trace of the real queue that the acceptor accepts is a reachable state
-   of the model (with address reuse allowed), hence satisfies the theorems above. *)
+(* (i) Each task is obtained at most once, and only a task that was pushed: the log of everything any
+   pop / local_pop / bulk_pop / steal_into read from a slot has no logical slot index twice, every
+   entry lies below tail.index (the slot was filled and published before it was read) and carries
+   exactly the value pushed at that index - never an uninitialised slot. *)
+Theorem C04_obtained_once_and_pushed :
+  forall B reuse, 1 <= B -> forall s, Reach B reuse s ->
+  NoDup (map gidx (got s)) /\
+  forall a i v, In (a, i, v) (got s) -> i < tix s /\ v = nth_error (pushed s) i /\ exists w, v = Some w.
+Proof. exact obtained_once_and_pushed. Qed.
+Print Assumptions C04_obtained_once_and_pushed.
+
+(* (i) The claims of operations in flight are pairwise disjoint ... *)
+Theorem C04_claims_disjoint :
+  forall B reuse, 1 <= B -> forall s a a' i, Reach B reuse s ->
+  holds B (A s a) = true -> holds B (A s a') = true ->
+  glo (A s a) <= i < ghi (A s a) -> glo (A s a') <= i < ghi (A s a') -> a = a'.
+Proof. exact claims_disjoint. Qed.
+Print Assumptions C04_claims_disjoint.
+
+(* ... a slot that is claimed but not read yet was handed to nobody ... *)
+Theorem C04_claimed_unread_not_obtained :
+  forall B reuse, 1 <= B -> forall s a i, Reach B reuse s ->
+  holds B (A s a) = true -> pc (A s a) <> XM -> glo (A s a) <= i < ghi (A s a) ->
+  forall a' v, ~ In (a', i, v) (got s).
+Proof. exact claimed_unread_not_obtained. Qed.
+Print Assumptions C04_claimed_unread_not_obtained.
+
+(* ... and the claimed slots are exactly those below the logical position of the head word. *)
+Theorem C04_claimed_iff_below_head :
+  forall B reuse, 1 <= B -> forall s i, Reach B reuse s -> (cl s i <> None <-> i < HL s).
+Proof. exact claimed_iff_below_head. Qed.
+Print Assumptions C04_claimed_iff_below_head.
+
+(* (ii) Order: of two entries of the same actor in the log the later one has the larger logical index;
+   for the owner these are its local pops: they come out in push order. *)
+Theorem C04_obtained_in_push_order :
+  forall B reuse, 1 <= B -> forall s l1 g1 l2 g2 l3, Reach B reuse s ->
+  got s = l1 ++ g1 :: l2 ++ g2 :: l3 -> gact g1 = gact g2 -> gidx g1 < gidx g2.
+Proof. exact obtained_in_push_order. Qed.
+Print Assumptions C04_obtained_in_push_order.
+
+(* (ii) The values one operation holds after its slot read are those pushed at the consecutive logical
+   indices [glo, ghi) of its claim, in that order (one stolen batch is in push order) ... *)
+Theorem C04_batch_in_push_order :
+  forall B reuse, 1 <= B -> forall s a, Reach B reuse s -> pc (A s a) = XM ->
+  res (A s a) = map (fun i => nth_error (pushed s) i) (seq (glo (A s a)) (ghi (A s a) - glo (A s a))) /\
+  glo (A s a) < ghi (A s a) <= tix s.
+Proof. exact batch_in_push_order. Qed.
+Print Assumptions C04_batch_in_push_order.
+
+(* ... pop / local_pop / bulk_pop return that batch; steal_into returns its last element and appends
+   the others, in order, to the stealer's own queue. *)
+Theorem C04_return_values :
+  forall B reuse, 1 <= B -> forall s a x s', Reach B reuse s -> pc (A s a) = XM -> step B reuse s (Step a x) = Some s' ->
+  let batch := map (fun i => nth_error (pushed s) i) (seq (glo (A s a)) (ghi (A s a) - glo (A s a))) in
+  if is_steal (kd (A s a))
+  then rv (A s' a) = [nth_error (pushed s) (ghi (A s a) - 1)] /\
+       dq (A s' a) = dq (A s a) ++ map (fun i => nth_error (pushed s) i) (seq (glo (A s a)) (ghi (A s a) - glo (A s a) - 1))
+  else rv (A s' a) = batch.
+Proof. exact return_values. Qed.
+Print Assumptions C04_return_values.
+
+(* (iii) A claimer that waits (its claim reaches beyond tail.index: possible after an ABA on the head word)
+   leaves the wait loop at its next load once the owner has filled its range, and its two remaining
+   steps (slot read, release) are always enabled: it waits for nothing but the owner's pushes. *)
+Theorem C04_claimed_completes_when_filled :
+  forall B reuse s a x, Reach B reuse s -> pc (A s a) = XW -> pend (A s a) <= tix s ->
+  exists s1, step B reuse s (Step a x) = Some s1 /\ pc (A s1 a) = XG.
+Proof. exact claimed_completes_when_filled. Qed.
+Print Assumptions C04_claimed_completes_when_filled.
+Theorem C04_read_and_release_enabled :
+  forall B reuse s a x, Reach B reuse s -> (pc (A s a) = XG \/ pc (A s a) = XM) -> exists s1, step B reuse s (Step a x) = Some s1.
+Proof. exact read_and_release_enabled. Qed.
+Print Assumptions C04_read_and_release_enabled.
+
+(* (iii) While claims reach beyond tail.index the owner's own emptiness test holds: its local_pop answers None. *)
+Theorem C04_overclaim_means_owner_sees_empty :
+  forall B reuse, 1 <= B -> forall s, Reach B reuse s -> tix s < HL s -> inpush (pc (A s 0)) = false ->
+  hb s = tbk s /\ tix s mod B <= hi s.
+Proof. exact overclaim_means_owner_sees_empty. Qed.
+Print Assumptions C04_overclaim_means_owner_sees_empty.
+
+(* (iii) The "skip slot" branch of local_pop (which would lose a task) is unreachable, and so are the
+   owner's restoring store and tail.index re-load. *)
+Theorem C04_local_pop_never_skips :
+  forall B reuse, 1 <= B -> forall s a, Reach B reuse s -> pc (A s a) <> LK /\ pc (A s a) <> LKr.
+Proof. exact local_pop_never_skips. Qed.
+Print Assumptions C04_local_pop_never_skips.
+Theorem C04_local_pop_never_restores :
+  forall B reuse, 1 <= B -> forall s a, Reach B reuse s -> kd (A s a) = KLocal -> pc (A s a) <> XR /\ pc (A s a) <> XT.
+Proof. exact local_pop_never_restores. Qed.
+Print Assumptions C04_local_pop_never_restores.
+
+(* (iv) Memory: no operation dereferences a freed block, `used` never underflows, no null `next` is
+   followed; the owner of a claim or of the lock bit keeps its block alive; a block is freed only by
+   the release whose fetch_sub returns exactly what it releases (used hits 0), when nobody else owns a
+   claim or the lock in it; the allocator only issues addresses that hold no live block. *)
+Theorem C04_memory_safe :
+  forall B reuse, 1 <= B -> forall s, Reach B reuse s -> bad_uaf s = false /\ bad_under s = false /\ bad_null s = false.
+Proof. exact memory_safe. Qed.
+Print Assumptions C04_memory_safe.
+Theorem C04_claimers_block_alive :
+  forall B reuse, 1 <= B -> forall s a, Reach B reuse s ->
+  holds B (A s a) = true \/ lockpc B (A s a) = true -> alive (heap s (lb (A s a))) = true.
+Proof. exact claimers_block_alive. Qed.
+Print Assumptions C04_claimers_block_alive.
+Theorem C04_freed_only_when_unused :
+  forall B reuse, 1 <= B -> forall s ac s' b, Reach B reuse s -> step B reuse s ac = Some s' ->
+  alive (heap s b) = true -> alive (heap s' b) = false ->
+  exists a x, ac = Step a x /\ pc (A s a) = XM /\ lb (A s a) = b /\ used (heap s b) = pend (A s a) - ppi (A s a) /\
+  forall a', a' <> a -> holds B (A s a') = true \/ lockpc B (A s a') = true -> lb (A s a') <> b.
+Proof. exact freed_only_when_unused. Qed.
+Print Assumptions C04_freed_only_when_unused.
+
+(* (v) Nothing is lost: when no operation is in flight the head is not beyond the tail and every task
+   pushed so far has been handed out or still lies in [head, tail). *)
+Theorem C04_quiescent_nothing_lost :
+  forall B reuse, 1 <= B -> forall s, Reach B reuse s -> (forall a, pc (A s a) = Idle \/ pc (A s a) = Ext) ->
+  HL s <= tix s /\ forall i, i < tix s -> (exists a v, In (a, i, v) (got s)) \/ HL s <= i.
+Proof. exact quiescent_nothing_lost. Qed.
+Print Assumptions C04_quiescent_nothing_lost.
+
+(* Tie: every state along a trace of the real queue that the acceptor accepts is a reachable state of the
+   model with address reuse, hence satisfies all theorems above. *)
 Theorem C04_accepted_traces_are_model_runs :
   forall B tr s x s' x', Reach B true s -> accept_all B (s, x) tr = Some (s', x') -> Reach B true s'.
 Proof. exact accept_all_reach. Qed.
 Print Assumptions C04_accepted_traces_are_model_runs.
+
+(* ---- non-vacuity ---------------------------------------------------------------------------------- *)
+Definition push1 v := [Call 0 KPush v; Step 0 0; Step 0 0].
+Definition rep (n : nat) (a : action) := repeat a n.
+(* B = 2: three pushes (a second block at address 1), stealer 1 pops slot 0, stealer 2 takes the lock for the last slot
+   of block 0, which is freed; the owner pops slot 2: a reachable state with three log entries by three actors *)
+Definition sched1 : list action :=
+  push1 1 ++ [Call 0 KPush 2; Step 0 0; Step 0 1; Step 0 0; Step 0 0] ++ push1 3 ++
+  (Call 1 KPop 0 :: rep 8 (Step 1 0)) ++ (Call 2 KPop 0 :: rep 10 (Step 2 0)) ++ (Call 0 KLocal 0 :: rep 5 (Step 0 0)).
+Example C04_nonvacuous_log :
+  exists s, Reach 2 true s /\ got s = [(1, 0, Some 1); (2, 1, Some 2); (0, 2, Some 3)] /\ alive (heap s 0) = false /\ HL s = 3.
+Proof.
+  eexists. split; [eapply (SpmcThm.run_reach 2 true sched1); [constructor | vm_compute; reflexivity]|]. vm_compute. auto 10.
+Qed.
+(* a stealer in the middle of steal_into: a claim of two slots that is read but not released *)
+Definition sched2 : list action :=
+  push1 1 ++ [Call 0 KPush 2; Step 0 0; Step 0 1; Step 0 0; Step 0 0] ++ (Call 1 KSteal 0 :: rep 9 (Step 1 0)).
+Example C04_nonvacuous_batch :
+  exists s, Reach 2 false s /\ pc (A s 1) = XM /\ res (A s 1) = [Some 1; Some 2] /\ glo (A s 1) = 0 /\ ghi (A s 1) = 2.
+Proof.
+  eexists. split; [eapply (SpmcThm.run_reach 2 false sched2); [constructor | vm_compute; reflexivity]|]. vm_compute. auto 10.
+Qed.
+(* the ABA over-claim (witness for F10?): block size 2, the allocator issues the freed address 0 again; stealer 1
+   loaded head = (address 0, 0), tail.index = 1, tail.block = address 0 before the queue went through two blocks; its
+   CAS succeeds on the new block at address 0 and it claims [4, 5) while tail.index = 4: it now waits for a
+   push that only the owner can make, and every other actor is idle (a final state unless the owner pushes again). *)
+Definition sched3 : list action :=
+  [Call 1 KBulk 0; Step 1 0] ++ push1 1 ++ [Step 1 0; Step 1 0] ++
+  [Call 0 KPush 2; Step 0 0; Step 0 2; Step 0 0; Step 0 0] ++
+  (Call 0 KLocal 0 :: rep 5 (Step 0 0)) ++ (Call 0 KLocal 0 :: rep 7 (Step 0 0)) ++
+  push1 3 ++ [Call 0 KPush 4; Step 0 0; Step 0 0; Step 0 0; Step 0 0] ++
+  (Call 0 KLocal 0 :: rep 5 (Step 0 0)) ++ (Call 0 KLocal 0 :: rep 7 (Step 0 0)) ++ [Step 1 0; Step 1 0].
+Example C04_overclaim_reachable_with_reuse :
+  exists s, Reach 2 true s /\ pc (A s 1) = XW /\ tix s = 4 /\ pend (A s 1) = 5 /\ pc (A s 0) = Idle /\
+            step 2 true s (Step 1 0) = Some s.
+Proof.
+  eexists. split; [eapply (SpmcThm.run_reach 2 true sched3); [constructor | vm_compute; reflexivity]|]. vm_compute. auto 10.
+Qed.
